@@ -10,6 +10,8 @@ package main
 //   - int literals are printed in decimal (0xf → 15);
 //   - the operands of a chain of one commutative-associative int operator (`& | ^ + *`) are flattened
 //     and sorted;
+//   - variables are renamed by ROLE (receiver r, parameters p0, p1, …, locals l0, …; unknown variables
+//     u0, u1, … in order of first appearance): the form does not depend on identifier names;
 //   - an identifier that is a single-assignment, side-effect-free local temporary (`kByte := k[t/8]`)
 //     is replaced by the normal form of its definition (SSA-style substitution; the caller checks that
 //     neither the temporary nor the variables it mentions are assigned anywhere in the translated body).
@@ -20,6 +22,7 @@ import (
 	"go/ast"
 	"go/parser"
 	"go/token"
+	"regexp"
 	"sort"
 	"strconv"
 	"strings"
@@ -128,21 +131,60 @@ func osCanDefer(list []ast.Stmt, name string, e ast.Expr) bool {
 
 var osCommAssoc = map[token.Token]bool{token.AND: true, token.OR: true, token.XOR: true, token.ADD: true, token.MUL: true}
 
+var osKeepIdents = map[string]bool{"true": true, "false": true, "nil": true, "iota": true, "_": true}
+
+var osMarkRe = regexp.MustCompile("\u2039[^\u203a]*\u203a")
+
+// osNormRole: normal form with variables renamed by ROLE (`role` maps receiver / parameters / locals of
+// known position to r, p0, p1, l0, …; "" = unknown); variables without a known role are renamed
+// u0, u1, … in order of first appearance, so the form does not depend on identifier names.  Function,
+// method, field and type names are kept.
+func osNormRole(e ast.Expr, subst func(string) ast.Expr, role func(string) string) (string, error) {
+	s, err := osNormRaw(e, subst, role, 0)
+	if err != nil {
+		return "", err
+	}
+	idx := map[string]int{}
+	return osMarkRe.ReplaceAllStringFunc(s, func(m string) string {
+		k, ok := idx[m]
+		if !ok {
+			k = len(idx)
+			idx[m] = k
+		}
+		return "u" + strconv.Itoa(k)
+	}), nil
+}
+
 func osNorm(e ast.Expr, subst func(string) ast.Expr, depth int) (string, error) {
+	return osNormRole(e, subst, nil)
+}
+
+var osRoleNameRe = regexp.MustCompile(`^(r|[plao][0-9]+)$`)
+
+func osNormRaw(e ast.Expr, subst func(string) ast.Expr, role func(string) string, depth int) (string, error) {
 	if depth > 16 {
 		return "", fmt.Errorf("substitution too deep")
 	}
-	n := func(x ast.Expr) (string, error) { return osNorm(x, subst, depth) }
+	n := func(x ast.Expr) (string, error) { return osNormRaw(x, subst, role, depth) }
 	switch x := e.(type) {
 	case *ast.ParenExpr:
 		return n(x.X)
 	case *ast.Ident:
 		if subst != nil {
 			if d := subst(x.Name); d != nil {
-				return osNorm(d, subst, depth+1)
+				return osNormRaw(d, subst, role, depth+1)
 			}
 		}
-		return x.Name, nil
+		if osKeepIdents[x.Name] {
+			return x.Name, nil
+		}
+		if role != nil {
+			if r := role(x.Name); r != "" {
+				return r, nil
+			}
+		}
+		// a variable without a known role: marked, renamed u0, u1, … in order of first appearance at the end
+		return "\u2039" + x.Name + "\u203a", nil
 	case *ast.BasicLit:
 		if x.Kind == token.INT {
 			if v, err := strconv.ParseInt(x.Value, 0, 64); err == nil {
@@ -188,7 +230,13 @@ func osNorm(e ast.Expr, subst func(string) ast.Expr, depth int) (string, error) 
 			if err := collect(x); err != nil {
 				return "", err
 			}
-			sort.Strings(ops)
+			sort.SliceStable(ops, func(i, j int) bool {
+				ki, kj := osMarkRe.ReplaceAllString(ops[i], "\u2039\u203a"), osMarkRe.ReplaceAllString(ops[j], "\u2039\u203a")
+				if ki != kj {
+					return ki < kj
+				}
+				return ops[i] < ops[j]
+			})
 			return "(" + strings.Join(ops, " "+x.Op.String()+" ") + ")", nil
 		}
 		a, err := n(x.X)
@@ -223,7 +271,13 @@ func osNorm(e ast.Expr, subst func(string) ast.Expr, depth int) (string, error) 
 		}
 		return a + "." + x.Sel.Name, nil
 	case *ast.CallExpr:
-		f, err := n(x.Fun)
+		var f string
+		var err error
+		if id, ok := x.Fun.(*ast.Ident); ok {
+			f = id.Name // function / conversion name, not a variable
+		} else {
+			f, err = n(x.Fun)
+		}
 		if err != nil {
 			return "", err
 		}
@@ -246,5 +300,11 @@ func osNormText(text string) (string, error) {
 	if err != nil {
 		return "", fmt.Errorf("configured expression %q: %v", text, err)
 	}
-	return osNorm(e, nil, 0)
+	// configured texts name variables by role (r, p0, l1, a0, o0); any other variable is "unknown"
+	return osNormRole(e, nil, func(n string) string {
+		if osRoleNameRe.MatchString(n) {
+			return n
+		}
+		return ""
+	})
 }
